@@ -147,8 +147,9 @@ def plan_run(i):
         p.image = base.data
         p.faults = []
         return p
-    others = [bases[rng.below(len(bases))].data for _ in range(2)]
-    ctx = simdisk.FaultCtx(base.data, others, W["readmaps"][bi], W["magics"])
+    oidx = [rng.below(len(bases)) for _ in range(2)]
+    others = [bases[k].data for k in oidx]
+    ctx = simdisk.FaultCtx(base.data, others, W["readmaps"][bi], W["magics"], [W["readmaps"][k] for k in oidx])
     img, fired = simdisk.apply_fault_sequence(rng, ctx, enabled, 4)
     p.image = img
     p.faults = fired
